@@ -135,7 +135,7 @@ def _case(draw, tier):
     fault = {"type": ftype}
     if ftype == "cmdfail":
         fault["k"] = draw(st.integers(1, 5))
-        fault["kind"] = draw(st.sampled_from(["exit1", "stderr-error", "garbage"]))
+        fault["kind"] = draw(st.sampled_from(["exit1", "stderr-error", "garbage", "exit1-plain", "killed"]))
     elif ftype == "queryfail":
         fault["cmd"] = draw(st.sampled_from(QUERY[b]))
         fault["kind"] = draw(st.sampled_from(["exit1", "stderr-error"]))
